@@ -6,4 +6,4 @@ open A2l.Tree
 #print axioms edit_local_change
 #print axioms edit_local_insert
 #print axioms new_item_last
-#print axioms comment_then_item
+#print axioms addGroup_chunks_comments
